@@ -227,9 +227,11 @@ def _oob_strategy():
     def mk(r, f, s, k, extra):
         h = r - 1
         lim = 4 ** h
-        S = {0: lim, 1: lim + extra % lim, 2: lim * 2, 3: lim * 4 - 1, 4: (1 << 60) + extra, 5: lim + 1}[k]
+        S = {0: lim, 1: lim + extra % lim, 2: lim * 2, 3: lim * 4 - 1, 4: (1 << 60) + extra, 5: lim + 1,
+             6: (1 << (2 * h + extra % 150)) + (extra % lim if extra % 3 else 0),       # one high bit far above the field
+             7: (extra % lim) | (1 << (2 * h + 64 + extra % 70))}[k]
         return {"t": "oob", "res": r, "face": f, "seg": s, "S": S}
-    return st.builds(mk, st.integers(2, 29), st.integers(0, 11), st.integers(0, 4), st.integers(0, 5), st.integers(0, 1 << 59))
+    return st.builds(mk, st.integers(2, 29), st.integers(0, 11), st.integers(0, 4), st.integers(0, 7), st.integers(0, 1 << 59))
 
 
 def stage_hyp(ctx):
